@@ -126,6 +126,12 @@ def st_spec(draw: st.DrawFn) -> dict:
 def _st_timeouts(draw: st.DrawFn) -> list:
     n = draw(st.integers(0, MAX_TIMEOUTS))
     out: list = []
+    if draw(st.integers(0, 4)) == 0:
+        # the "drain what is already there" handler: wait for one request, then poll with timeout 0 until nothing is left
+        for j in range(draw(st.integers(1, 3))):
+            out.append(draw(st.sampled_from([None, None, 1 + 2.0 ** -(len(out) + 1)])))
+            out += [0.0] * draw(st.integers(1, 4))
+        return out[:MAX_TIMEOUTS]
     for j in range(n):
         r = draw(st.integers(0, 9))
         if r <= 3:
@@ -192,7 +198,8 @@ def st_case(draw: st.DrawFn, tier: str, sut: str) -> dict:
         ),
         "per_gen": draw(st.lists(st.sampled_from([1, 1, 1, 1, 2, 2, 2, 3, 3, None, None, None, 0]), min_size=1, max_size=3)),
         "timeouts": _st_timeouts(draw),
-        "timeout_style": draw(st.sampled_from(["yield", "yield", "asyncio", "backend"])),
+        "timeout_style": draw(st.sampled_from(["yield", "yield", "asyncio", "backend", "mixed", "mixed"])),
+        "style_seq": draw(st.lists(st.sampled_from(["yield", "asyncio", "backend"]), min_size=2, max_size=4)),
         "on_bad": draw(st.sampled_from(["continue", "reyield", "return"])),
         "on_timeout": draw(st.sampled_from(["continue", "reyield", "return"])),
         "close_at": draw(st.one_of(st.none(), st.none(), st.integers(0, n - 1))),
@@ -494,6 +501,10 @@ class ShapeHandler(AsyncStreamRequestHandler[Any, Any]):
                 self.log.append(("yield", gid, self._now(), timeout))
                 try:
                     style = sh.get("timeout_style", "yield")
+                    if style == "mixed":
+                        # a different way of bounding the wait at every yield (D30: a library scope right after an asyncio one)
+                        seq = sh.get("style_seq") or ["yield"]
+                        style = seq[(self.yield_idx - 1) % len(seq)]
                     if style == "yield" or timeout is None:
                         req = yield timeout
                     elif style == "asyncio":
